@@ -164,7 +164,7 @@ class Ctx:
     def run_scenario(self, text, tag='s'):
         """run a scenario natively; returns (path_of_scenario_file, list of (lineno, cmd, result))"""
         binp = self.replay_bin()
-        d = os.path.join(VERIF, 'evidence', 'replays')
+        d = os.path.join(os.environ.get('VERIF_EVIDENCE_DIR', os.path.join(VERIF, 'evidence')), 'replays')
         os.makedirs(d, exist_ok=True)
         h = hashlib.sha256(text.encode()).hexdigest()[:10]
         work = os.path.join(CACHE, 'replay-work', f'{self.prop}-{tag}-{h}-{os.getpid()}')
@@ -216,8 +216,9 @@ class Ctx:
         cov.update(self.extra)
         ev = {'property_id': self.prop, 'tier': self.tier, 'seed': self.seed, 'level': level, 'coverage': cov,
               'assumptions': self.assumptions, 'wall_s': round(wall, 2), 'violations': len(self.violations)}
-        os.makedirs(os.path.join(VERIF, 'evidence'), exist_ok=True)
-        with open(os.path.join(VERIF, 'evidence', f'{self.prop}.json'), 'w') as fh:
+        evdir = os.environ.get('VERIF_EVIDENCE_DIR', os.path.join(VERIF, 'evidence'))
+        os.makedirs(evdir, exist_ok=True)
+        with open(os.path.join(evdir, f'{self.prop}.json'), 'w') as fh:
             json.dump(ev, fh, indent=1, default=str)
         print(f'[{self.prop}] tier={self.tier} obligations={n_ob} discharged={discharged} known={len(self.known_hits)} '
               f'unconfirmed={len(self.unconfirmed)} undecided={len(undecided)} violations={len(self.violations)} '
@@ -240,13 +241,24 @@ def load_known_findings():
 def build_replay():
     """build /verif/replay against /repo's current working tree with the hooks on"""
     tgt = os.path.join(CACHE, 'replay-target')
+    crate = os.path.join(VERIF, 'replay')
     env = dict(os.environ, CARGO_NET_OFFLINE='true', RUSTFLAGS='--cfg fjall_verif')
     import fcntl
     os.makedirs(CACHE, exist_ok=True)
-    lock = open(os.path.join(CACHE, 'replay.lock'), 'w')
+    if os.path.realpath(REPO) != '/repo':
+        # checks pointed at a scratch tree (sensitivity mutants, seeded changes): private copy of the driver crate
+        tag = hashlib.sha256(os.path.realpath(REPO).encode()).hexdigest()[:10]
+        crate2 = os.path.join(CACHE, f'replay-crate-{tag}')
+        shutil.rmtree(crate2, ignore_errors=True)
+        shutil.copytree(crate, crate2, ignore=shutil.ignore_patterns('target'))
+        ct = open(os.path.join(crate2, 'Cargo.toml')).read().replace('path = "/repo"', f'path = "{os.path.realpath(REPO)}"')
+        open(os.path.join(crate2, 'Cargo.toml'), 'w').write(ct)
+        crate = crate2
+        tgt = os.environ.get('VERIF_REPLAY_TARGET', os.path.join(CACHE, f'replay-target-{tag}'))
+    lock = open(os.path.join(CACHE, 'replay.lock' if crate.endswith('/replay') else os.path.basename(crate) + '.lock'), 'w')
     fcntl.flock(lock, fcntl.LOCK_EX)
     try:
-        p = subprocess.run(['cargo', 'build', '--offline', '--quiet', '--target-dir', tgt], cwd=os.path.join(VERIF, 'replay'),
+        p = subprocess.run(['cargo', 'build', '--offline', '--quiet', '--target-dir', tgt], cwd=crate,
                            env=env, stdout=subprocess.PIPE, stderr=subprocess.PIPE, text=True)
         if p.returncode != 0:
             raise RuntimeError('replay driver build failed: ' + p.stderr[-2000:])
